@@ -125,7 +125,10 @@ func (m *RWMutex) Lock() {
 	x.YieldOp(rwWritable{m}, rwWritable{m})
 	m.writer = true
 	x.Touch(&m.hb, 4)
-	vrt.RaceAcquire(unsafe.Pointer(m))
+	// as sync.RWMutex: a writer acquires what earlier writers (readerSem role: &m.writer) and
+	// earlier readers (writerSem role: &m.readers) released
+	vrt.RaceAcquire(unsafe.Pointer(&m.writer))
+	vrt.RaceAcquire(unsafe.Pointer(&m.readers))
 }
 
 //go:norace
@@ -137,7 +140,7 @@ func (m *RWMutex) Unlock() {
 	if !m.writer {
 		panic("sync: Unlock of unlocked RWMutex")
 	}
-	vrt.RaceRelease(unsafe.Pointer(m))
+	vrt.RaceRelease(unsafe.Pointer(&m.writer))
 	m.writer = false
 	x.Touch(&m.hb, 5)
 }
@@ -151,7 +154,8 @@ func (m *RWMutex) RLock() {
 	x.YieldOp(rwReadable{m}, rwReadable{m})
 	m.readers++
 	x.Touch(&m.hb, 6)
-	vrt.RaceAcquire(unsafe.Pointer(m))
+	// readers synchronise with writers only, never with one another
+	vrt.RaceAcquire(unsafe.Pointer(&m.writer))
 }
 
 //go:norace
@@ -163,7 +167,7 @@ func (m *RWMutex) RUnlock() {
 	if m.readers <= 0 {
 		panic("sync: RUnlock of unlocked RWMutex")
 	}
-	vrt.RaceReleaseMerge(unsafe.Pointer(m))
+	vrt.RaceReleaseMerge(unsafe.Pointer(&m.readers))
 	m.readers--
 	x.Touch(&m.hb, 7)
 }
